@@ -272,8 +272,9 @@ fn jobs_for_inner(prop: &str, thorough: bool) -> Vec<Job> {
             vec![cache(false, 4000, 8000)],
         "C19" => vec![
             cache(false, 4000, 8000),
-            Job { engine: "shared", build: "", asan: false, workers: 16, cases: if t { 1500 } else { 150 }, timeout_s: 3600 },
-            Job { engine: "shared", build: "tsan", asan: false, workers: 16, cases: if t { 1500 } else { 100 }, timeout_s: 3600 },
+            // ThreadSanitizer first: a write through &self is reported there before it can make a reader loop
+            Job { engine: "shared", build: "tsan", asan: false, workers: 16, cases: if t { 1500 } else { 100 }, timeout_s: if t { 3600 } else { 900 } },
+            Job { engine: "shared", build: "", asan: false, workers: 16, cases: if t { 1500 } else { 150 }, timeout_s: if t { 3600 } else { 600 } },
         ],
         "C06" | "C07" | "C14" =>
             vec![cache(false, 4000, 8000), cache(true, 600, 2000)],
@@ -384,9 +385,22 @@ fn crashes(bin: &Path, asan: bool, prop: &str, file: &Path) -> bool {
         cmd.env("ASAN_OPTIONS", "detect_leaks=0:exitcode=77:abort_on_error=0:allocator_may_return_null=1");
     }
     cmd.env("TSAN_OPTIONS", "halt_on_error=1:exitcode=66:report_signal_unsafe=0");
-    match cmd.status() {
-        Ok(s) => s.code().map(|c| c != 0 && c != 2 && c != 101).unwrap_or(true),
-        Err(_) => false,
+    // with a watchdog: a case that hangs is not a crash
+    let mut child = match cmd.spawn() { Ok(c) => c, Err(_) => return false };
+    let started = Instant::now();
+    loop {
+        match child.try_wait() {
+            Ok(Some(s)) => return s.code().map(|c| c != 0 && c != 2 && c != 101).unwrap_or(true),
+            Ok(None) => {
+                if started.elapsed() > Duration::from_secs(120) {
+                    let _ = child.kill();
+                    let _ = child.wait();
+                    return false;
+                }
+                std::thread::sleep(Duration::from_millis(20));
+            },
+            Err(_) => return false,
+        }
     }
 }
 
